@@ -25,6 +25,13 @@
 //	                   forwarding): writes toward it block once the socket buffers are full
 //	FH                 the forwarder half-closes toward the proxy (the proxy reads EOF from upstream)
 //	FR                 the forwarder resets the proxy's connection (a blocked write fails)
+//	chb/shb:<sid>:<mode>[:t]   HEADERS (t: trailers) carrying an invalid HPACK block; mode = carrier/position:
+//	                   1 single frame, 2 bad first fragment + CONTINUATION, 3 good fragment + bad CONTINUATION,
+//	                   4 invalid only once complete (truncated literal across the fragments), 5 three fragments
+//	cpb/spb:<sid>:<pid>:<mode> the same carried by PUSH_PROMISE (+CONTINUATION)
+//	CQ1-3 SQ1-3        bad frame sequences: CONTINUATION alone; DATA / another HEADERS inside a header block
+//	CW1-5 SW1-5        frames on the wrong stream / malformed: DATA on 0, WINDOW_UPDATE +0, RST_STREAM on 0,
+//	                   SETTINGS length 4, HEADERS on 0
 //	RFC                the proxy's reads from the client fail (not EOF); writes toward the client keep working
 //	PF:<c|s>:<H|D|R|P>:<n>  (configuration) a StreamProcessorFactory whose processor for that direction returns
 //	                   an error from the n-th Header / Data / RSTStream / PushPromise call
@@ -318,7 +325,7 @@ func (e *endpoint) do(f func(fr *http2.Framer) error) {
 	}
 	e.mu.Lock()
 	defer e.mu.Unlock()
-	e.conn.SetWriteDeadline(time.Now().Add(1500 * time.Millisecond))
+	e.conn.SetWriteDeadline(time.Now().Add(2500 * time.Millisecond))
 	_ = f(e.fr) // errors are expected once the session is ending
 }
 
@@ -509,7 +516,12 @@ func atoi(s string) int { n, _ := strconv.Atoi(s); return n }
 // harness then waits for the return instead of a quiet period).
 func terminating(op string) bool {
 	for _, p := range strings.Split(op, "+") {
+		if len(p) > 3 && (p[1:3] == "hb" || p[1:3] == "pb") && p[3] == ':' {
+			return true
+		}
 		switch p {
+		case "CQ1", "CQ2", "CQ3", "SQ1", "SQ2", "SQ3", "CW1", "CW2", "CW3", "CW4", "CW5", "SW1", "SW2", "SW3", "SW4", "SW5":
+			return true
 		case "CC", "SC", "SR", "CE1", "CE2", "CE3", "SE1", "SE2", "SE3", "CL", "badpre", "HC", "FH", "FR", "RFC", "cdbad", "sdbad":
 			return true
 		}
@@ -622,6 +634,94 @@ func (s *session) issue(op string) {
 		})
 	case "sga", "cga": // GOAWAY
 		s.side(f[0][0]).do(func(fr *http2.Framer) error { return fr.WriteGoAway(0, http2.ErrCodeNo, []byte("bye")) })
+	case "chb", "shb", "cpb", "spb":
+		// a header block that is not valid HPACK, by carrier: HEADERS (chb/shb:<sid>:<mode>[:t], t = trailers,
+		// END_STREAM set) or PUSH_PROMISE (cpb/spb:<sid>:<promised>:<mode>).  mode 1: one frame with END_HEADERS;
+		// 2: first fragment bad, CONTINUATION good; 3: first fragment good, CONTINUATION bad; 4: both fragments
+		// plausible, the block is only invalid once complete (truncated string literal); 5: three fragments, the
+		// middle one bad.
+		pp := f[0][1] == 'p'
+		mode := arg(2)
+		if pp {
+			mode = arg(3)
+		}
+		bad := []byte{0x80} // indexed header field with index 0 (RFC 7541 6.1)
+		var frags [][]byte
+		switch mode {
+		case 1:
+			frags = [][]byte{bad}
+		case 2:
+			frags = [][]byte{bad, hpackOK}
+		case 3:
+			frags = [][]byte{hpackOK, bad}
+		case 4:
+			frags = [][]byte{append(append([]byte{}, hpackOK...), 0x40, 0x05, 'h', 'e'), {'l', 'l', 'o', 0x7f}}
+		default:
+			frags = [][]byte{hpackOK[:3], bad, hpackOK[3:]}
+		}
+		sid := uint32(arg(1))
+		s.side(f[0][0]).do(func(fr *http2.Framer) error {
+			for i, fg := range frags {
+				var flags http2.Flags
+				if i == len(frags)-1 {
+					flags |= http2.FlagHeadersEndHeaders // same bit (0x4) for HEADERS, PUSH_PROMISE and CONTINUATION
+				}
+				var err error
+				switch {
+				case i > 0:
+					err = fr.WriteRawFrame(http2.FrameContinuation, flags, sid, fg)
+				case pp:
+					pid := uint32(arg(2))
+					payload := append([]byte{byte(pid >> 24), byte(pid >> 16), byte(pid >> 8), byte(pid)}, fg...)
+					err = fr.WriteRawFrame(http2.FramePushPromise, flags, sid, payload)
+				default:
+					if len(f) > 3 && f[3] == "t" {
+						flags |= http2.FlagHeadersEndStream
+					}
+					err = fr.WriteRawFrame(http2.FrameHeaders, flags, sid, fg)
+				}
+				if err != nil {
+					return err
+				}
+			}
+			return nil
+		})
+	case "CQ1", "SQ1": // CONTINUATION with no header block open
+		s.side(f[0][0]).do(func(fr *http2.Framer) error {
+			return fr.WriteRawFrame(http2.FrameContinuation, http2.FlagContinuationEndHeaders, 1, hpackOK)
+		})
+	case "CQ2", "SQ2": // DATA in the middle of a header block
+		s.side(f[0][0]).do(func(fr *http2.Framer) error {
+			if err := fr.WriteRawFrame(http2.FrameHeaders, 0, 7, hpackOK[:3]); err != nil {
+				return err
+			}
+			return fr.WriteRawFrame(http2.FrameData, 0, 7, []byte("x"))
+		})
+	case "CQ3", "SQ3": // another stream's HEADERS in the middle of a header block
+		s.side(f[0][0]).do(func(fr *http2.Framer) error {
+			if err := fr.WriteRawFrame(http2.FrameHeaders, 0, 7, hpackOK[:3]); err != nil {
+				return err
+			}
+			return fr.WriteRawFrame(http2.FrameHeaders, http2.FlagHeadersEndHeaders, 9, hpackOK)
+		})
+	case "CW1", "SW1": // DATA on stream 0
+		s.side(f[0][0]).do(func(fr *http2.Framer) error { return fr.WriteRawFrame(http2.FrameData, 0, 0, []byte("x")) })
+	case "CW2", "SW2": // WINDOW_UPDATE with a zero increment on a stream
+		s.side(f[0][0]).do(func(fr *http2.Framer) error {
+			return fr.WriteRawFrame(http2.FrameWindowUpdate, 0, 1, []byte{0, 0, 0, 0})
+		})
+	case "CW3", "SW3": // RST_STREAM on stream 0
+		s.side(f[0][0]).do(func(fr *http2.Framer) error {
+			return fr.WriteRawFrame(http2.FrameRSTStream, 0, 0, []byte{0, 0, 0, 8})
+		})
+	case "CW4", "SW4": // SETTINGS whose length is not a multiple of 6
+		s.side(f[0][0]).do(func(fr *http2.Framer) error {
+			return fr.WriteRawFrame(http2.FrameSettings, 0, 0, []byte{0, 3, 0, 0})
+		})
+	case "CW5", "SW5": // HEADERS on stream 0
+		s.side(f[0][0]).do(func(fr *http2.Framer) error {
+			return fr.WriteRawFrame(http2.FrameHeaders, http2.FlagHeadersEndHeaders, 0, hpackOK)
+		})
 	case "RFC":
 		s.proxyEnd.failReads()
 	case "PF", "GRPC": // configuration, consumed before the session starts
